@@ -44,8 +44,10 @@ def execute(plan):
     v = []
     log = []
     st = {"frames": 0, "fast_completed": 0, "single_decoded": 0, "whole_compared": 0}
+    seen = {}
     for evno, e in enumerate(plan["events"]):
         st["frames"] += 1
+        seen.setdefault(e.get("m"), []).append(e.get("i", 0))
         res = {}
         for f in ff:
             m, exc = bus.feed_frame(fl[f], f, e["f"])
@@ -68,7 +70,7 @@ def execute(plan):
             break
         if is_msg:
             st["fast_completed" if e["k"] == "fast" else "single_decoded"] += 1
-        if last and e.get("whole") is not None:
+        if last and e.get("whole") is not None and seen.get(e.get("m")) == list(range(e.get("n", 1))):
             pgn, src, dst, prio, _ = e["f"]
             for f in wf:
                 m, exc = bus.feed_whole(wl[f], f, [pgn, src, dst, prio, e["whole"]])
